@@ -275,6 +275,8 @@ def m_str(I_, args, kws, st, ctx, k, node):
       f = I_.class_lookup(cls, dn)
       if f is not _MISSING and isinstance(f, types.FunctionType):
         def got(st2, r):
+          if isinstance(r, Union):
+            return I_.split(r, st2, got)
           if not is_strlike(r):
             return I_.raise_exc(st2, ctx, TypeError, "__str__ returned non-string", node)
           return k(st2, r)
